@@ -4,6 +4,7 @@ import (
 	"go/token"
 	"go/types"
 	"sort"
+	"strings"
 
 	"golang.org/x/tools/go/ssa"
 )
@@ -299,4 +300,146 @@ func (pc *pathCons) Analyse(fn *ssa.Function, mode string) []pathConsResult {
 		out = append(out, res)
 	}
 	return out
+}
+
+// reachableFollowingFlags is forward reachability from the end of block start
+// that follows a conditional branch in one direction only when its condition
+// is a local boolean flag (an SSA phi, or a cell when a closure captures the
+// variable), possibly negated, whose value on the path taken is a known
+// constant: `flag := false; if … { …; flag = true }; if !flag { … }`.
+func reachableFollowingFlags(start *ssa.BasicBlock) map[*ssa.BasicBlock]bool {
+	type state struct {
+		b   *ssa.BasicBlock
+		env string
+	}
+	seen := map[*ssa.BasicBlock]bool{}
+	visited := map[state]bool{}
+	// cells a closure may assign are never known
+	unknownCell := map[*ssa.Alloc]bool{}
+	fn := start.Parent()
+	for _, b := range fn.Blocks {
+		for _, ins := range b.Instrs {
+			mc, ok := ins.(*ssa.MakeClosure)
+			if !ok {
+				continue
+			}
+			cl, _ := mc.Fn.(*ssa.Function)
+			for i, bind := range mc.Bindings {
+				al, ok := bind.(*ssa.Alloc)
+				if !ok || cl == nil || i >= len(cl.FreeVars) {
+					continue
+				}
+				if refs := cl.FreeVars[i].Referrers(); refs != nil {
+					for _, r := range *refs {
+						if st, ok := r.(*ssa.Store); ok && st.Addr == ssa.Value(cl.FreeVars[i]) {
+							unknownCell[al] = true
+						}
+					}
+				}
+			}
+		}
+	}
+	constBool := func(v ssa.Value) (bool, bool) {
+		k, ok := v.(*ssa.Const)
+		if !ok || k.Value == nil {
+			return false, false
+		}
+		switch k.Value.ExactString() {
+		case "true":
+			return true, true
+		case "false":
+			return false, true
+		}
+		return false, false
+	}
+	// scan applies the stores of the instructions of b (from index from on) to env
+	scan := func(b *ssa.BasicBlock, from int, env map[ssa.Value]bool) {
+		for _, ins := range b.Instrs[from:] {
+			if st, ok := ins.(*ssa.Store); ok {
+				if al, ok := st.Addr.(*ssa.Alloc); ok && !unknownCell[al] {
+					if v, isC := constBool(st.Val); isC {
+						env[al] = v
+					} else {
+						delete(env, al)
+					}
+				}
+			}
+		}
+	}
+	var walk func(from, b *ssa.BasicBlock, env map[ssa.Value]bool)
+	walk = func(from, b *ssa.BasicBlock, env map[ssa.Value]bool) {
+		ne := map[ssa.Value]bool{}
+		for k, v := range env {
+			ne[k] = v
+		}
+		pi := -1
+		for i, p := range b.Preds {
+			if p == from {
+				pi = i
+			}
+		}
+		for _, ins := range b.Instrs {
+			phi, ok := ins.(*ssa.Phi)
+			if !ok {
+				break
+			}
+			delete(ne, phi)
+			if pi >= 0 && pi < len(phi.Edges) {
+				if v, isC := constBool(phi.Edges[pi]); isC {
+					ne[phi] = v
+				} else if v, known := env[phi.Edges[pi]]; known {
+					ne[phi] = v
+				}
+			}
+		}
+		scan(b, 0, ne)
+		var keys []string
+		for k, v := range ne {
+			s := k.Name() + "=f"
+			if v {
+				s = k.Name() + "=t"
+			}
+			keys = append(keys, s)
+		}
+		sort.Strings(keys)
+		st := state{b, strings.Join(keys, ";")}
+		if visited[st] {
+			return
+		}
+		visited[st] = true
+		seen[b] = true
+		if len(b.Instrs) > 0 {
+			if ifi, ok := b.Instrs[len(b.Instrs)-1].(*ssa.If); ok {
+				cond := ifi.Cond
+				neg := false
+				if u, ok := cond.(*ssa.UnOp); ok && u.Op == token.NOT {
+					cond, neg = u.X, true
+				}
+				var flag ssa.Value = cond
+				if u, ok := cond.(*ssa.UnOp); ok && u.Op == token.MUL {
+					flag = u.X // load of a cell
+				}
+				if v, known := ne[flag]; known {
+					if neg {
+						v = !v
+					}
+					if v {
+						walk(b, b.Succs[0], ne)
+					} else {
+						walk(b, b.Succs[1], ne)
+					}
+					return
+				}
+			}
+		}
+		for _, s := range b.Succs {
+			walk(b, s, ne)
+		}
+	}
+	env := map[ssa.Value]bool{}
+	scan(start, 0, env) // the stores of the start block itself (the flag is usually set right after the action)
+	for _, s := range start.Succs {
+		walk(start, s, env)
+	}
+	return seen
 }
